@@ -266,6 +266,11 @@ func checkC08(c *Ctx, r *Report) {
 				name, isC := constString(args[1])
 				ok := isC && (name == "If-None-Match" || name == "If-Modified-Since")
 				r.Check(ok, "C08.R4", fnKey(f)+" sets request header "+name, c.InstrPos(x), "stored validator on the revalidation clone", "a request header other than the stored validators is set/overwritten before forwarding")
+				onClone := false
+				if cl, isCall := resolveVal(rt).(*ssa.Call); isCall && calleeName(cl) == "(*net/http.Request).Clone" {
+					onClone = true
+				}
+				r.Check(onClone, "C08.R4", fnKey(f)+" sets "+name+" on a clone of the request", c.InstrPos(x), "receiver is req.Clone(...).Header", "the proxy's own validator is written into the client's request (shared header map): when the revalidation falls back to relaying, the origin receives a conditional the client never sent and the client gets a bodiless 304")
 			}
 		})
 	}
